@@ -89,7 +89,11 @@ def catalog(ctx):
     if p.returncode != 0 or not lines or not probe:
         raise RuntimeError('c08_impl --catalog failed: ' + _clean(p.stderr)[-1500:])
     # the supporting run relies on pool workers inheriting module constants patched in the parent (fork)
-    if probe[0]['workers_see'] != [list(SMALL)] or not probe[0]['other_process']:
+    global SUPPORTING
+    if not probe[0].get('patchable'):
+        SUPPORTING = False
+        ctx.notes.append('supporting small-constant run SKIPPED: the block constants are no longer patchable module attributes (advisory, private state)')
+    elif probe[0]['workers_see'] != [list(SMALL)] or not probe[0]['other_process']:
         raise RuntimeError('c08: pool workers do not inherit patched module constants: %r' % (probe[0],))
     ctx.notes.append('fork probe: %r' % ({k: v for k, v in probe[0].items() if k != 'registered'},))
     global REGISTERED
@@ -415,6 +419,7 @@ def gen_short_payload(rng, cat):
 
 
 REGISTERED = []
+SUPPORTING = True
 
 
 def undecodable_payloads(default, maxpay):
@@ -626,13 +631,47 @@ def shrink(ctx, exe, case, sig, legacy_view):
     return out if still(out) else rec
 
 
+def _read_generated(name, keys):
+    """last generated values of Generated/<name>.v (used when a translator cannot run)"""
+    txt = open(os.path.join(vf.THEORIES, 'Generated', name + '.v')).read()
+    out = {}
+    for k in keys:
+        m = re.search(r'Definition %s : N := (\d+)\.' % k, txt)
+        if not m:
+            raise RuntimeError('c08: %s not in Generated/%s.v' % (k, name))
+        out[k] = int(m.group(1))
+    return out
+
+
+def translate(ctx):
+    """regenerate the constants by evaluating the working tree.  A translator that cannot run is a failed obligation and a
+    pending alarm, but not the end of the run: the last generated constants stay in place so that the search for a
+    failing input still happens."""
+    keys = ['READ_SIZE_BYTES', 'MAX_FE_MSG_SIZE_BYTES', 'MAX_EXPECTED_SIZE_BYTES']
+    for name, gen, what in (('gen_fe', gen_fe, 'wire-format and block constants'), ('gen_c08', gen_c08, 'index column ranges and the no-time marker')):
+        label = 'translator %s derived the %s from the working tree' % (name, what)
+        try:
+            vals = gen.generate()
+            ctx.obligation(label, True, 'translator', repr({k: v for k, v in vals.items() if not str(k).startswith('crc_table')})[:600])
+        except Exception as e:
+            ctx.obligation(label, False, 'translator', repr(e)[:400])
+            if not getattr(ctx, 'pending_broken', None):
+                ctx.pending_broken = {'kind': 'translator', 'what': '%s cannot derive its constants from the working tree: %r' % (name, e)}
+            if name == 'gen_c08' and not os.path.exists(os.path.join(vf.THEORIES, 'Generated', 'FastIndexerConsts.v')):
+                vf.write_if_changed(os.path.join(vf.THEORIES, 'Generated', 'FastIndexerConsts.v'),
+                                    'From Coq Require Import NArith.\nOpen Scope N_scope.\nDefinition FI_TIME_INVALID : N := 4294967295.\n'
+                                    'Definition FI_INT_MAX : N := 4294967295.\nDefinition FI_TYPE_MAX : N := 65535.\n'
+                                    'Definition FI_OFFSET_MAX : N := 18446744073709551615.\nDefinition FI_SIZE_MAX : N := 4294967295.\n')
+    c = _read_generated('FEConsts', keys)
+    ctx.notes.append('constants in force: %r %r' % (c, _read_generated('FastIndexerConsts', ['FI_TIME_INVALID', 'FI_INT_MAX', 'FI_TYPE_MAX', 'FI_OFFSET_MAX', 'FI_SIZE_MAX'])))
+    return c['READ_SIZE_BYTES'], c['MAX_FE_MSG_SIZE_BYTES']
+
+
 def run(ctx):
-    consts = gen_fe.generate()
-    widths = gen_c08.generate()
-    R, M = consts['READ_SIZE_BYTES'], consts['MAX_FE_MSG_SIZE_BYTES']
-    ctx.notes.append('generated constants: READ=%d MAX=%d MAX_EXPECTED=%d widths=%r' % (R, M, consts['MAX_EXPECTED_SIZE_BYTES'], widths))
+    R, M = translate(ctx)
     if not ctx.coq():
-        ctx.broken_proof()
+        if not getattr(ctx, 'pending_broken', None):
+            ctx.broken_proof()
     elif ctx.thorough and not ctx.coqchk():
         ctx.broken_proof('coqchk rejected the compiled development')
     exe = vf.build_extracted('c08', 'C08', 'c08_driver.ml', conv=False)
@@ -663,12 +702,14 @@ def run(ctx):
     real += gen_mix(rng, cat, R, M, 24 if quick else 200, 6)
     cases += real
     nreal = len(cases)
-    cases += gen_small_exhaustive(rng, cat, quick)
+    if SUPPORTING:
+        cases += gen_small_exhaustive(rng, cat, quick)
     for i, c in enumerate(cases):
         c['id'] = i
         # small-constant files have at most a handful of blocks: 16 workers (mostly idle ones) on every fourth case
         c['threads'] = THREADS if (not c.get('consts') or i % 4 == 0) else THREADS[:-1]
         c['legacy_view'] = legacy_view
+        c['real_consts'] = [R, M]
         c.setdefault('consts', None)
     ctx.log('%d cases (%d corpus, %d real constants, %d small constants)' % (len(cases), ncorpus, nreal - ncorpus, len(cases) - nreal))
 
@@ -729,7 +770,7 @@ def run(ctx):
         'numpy (frombuffer/where/maximum.accumulate/structured array casts), struct, zlib.crc32 modelled by small Gallina functions',
         'multiprocessing.Pool.starmap returns results in argument order',
         'per-class payload decoding (cls().unpack + get_p1_time) is an uninterpreted function in the theorems and is evaluated by the library itself in the harness (C01 covers the codecs)',
-        'translators gen_fe.py / gen_c08.py', 'harness/py/c08_files.py, c08_impl.py']
+        'translators gen_fe.py / gen_c08.py (constants obtained by importing the working tree and probing its behaviour)', 'harness/py/c08_files.py, c08_impl.py']
     ctx.assumptions += ['file size < 2^53 (math.ceil(file_size / READ) is computed in binary64)', 'max_bytes is not given; no index file exists (force_reindex)',
                         'the file does not change while it is indexed', 'num_threads >= 1']
 
@@ -741,7 +782,10 @@ def replay(ctx, rec):
     if 'recipe' not in case:
         print(json.dumps(rec, indent=1)[:3000])
         return 0
-    gen_fe.generate(); gen_c08.generate()
+    try:
+        gen_fe.generate(); gen_c08.generate()
+    except Exception as e:
+        print('translator failed (%r); using the last generated constants' % (e,))
     exe = vf.build_extracted('c08', 'C08', 'c08_driver.ml', conv=False)
     c = {'id': 0, 'recipe': case['recipe'], 'consts': case.get('consts'), 'threads': case.get('threads', THREADS), 'legacy_view': not cur_cfg_flags()[4]}
     r = run_impl(ctx, [c], 1)[0]
